@@ -39,6 +39,7 @@ def jobs(tier, seed):
         out.append(('resync.%s' % build, 'c_resync', dict(build=build)))
         for nn in (1, 2, 3):
             out.append(('noise.%s.n=%d' % (build, nn), 'c_noise', dict(build=build, nn=nn)))
+            out.append(('noise-between.%s.n=%d' % (build, nn), 'c_noise', dict(build=build, nn=nn, where='between')))
     dl = [0, 4, 5, 10, 125, 126, 128]
     maxlen = 3 if tier == 'thorough' else 2
     special = {0, 125, 126}
@@ -52,6 +53,9 @@ def jobs(tier, seed):
         for l1, l2 in [(1, 1), (0, 2), (2, 0)] + ([(3, 3)] if tier == 'thorough' else []):
             for pat in (pats(l1 + l2) if l1 + l2 <= 3 else ['pppppp', 'spspsp', 'ssssss', 'ppssps']):
                 out.append(('frames.%d:%d+%d:%d.%s' % (d1, l1, d2, l2, pat), 'c_frames', dict(msgs=[[d1, l1], [d2, l2]], pattern=pat)))
+    for kpull in (0, 1, 3, 5, 6, 7):
+        out.append(('frames.interleaved.pull=%d' % kpull, 'c_frames', dict(msgs=[[10, 1], [4, 1]], pattern='pp', pull_before_last=kpull)))
+    out.append(('frames.interleaved3.pull=2', 'c_frames', dict(msgs=[[10, 1], [5, 0], [4, 1]], pattern='pp', pull_before_last=2)))
     if tier == 'thorough':
         for pat in pats(4):
             out.append(('frames.three.%s' % pat, 'c_frames', dict(msgs=[[5, 1], [4, 2], [5, 1]], pattern=pat)))
@@ -286,19 +290,22 @@ def c_resync(hid, build, timeout_ms=60000):
     return j.stats
 
 
-def c_noise(hid, build, nn, timeout_ms=60000):
+def c_noise(hid, build, nn, where='before', timeout_ms=60000):
     """flag-free noise between frames is ignored: receiver waiting for a frame start, nn arbitrary octets other than the flag
     (escape 0x7D and 0x00 included), then two frames with symbolic payload octets: both are delivered intact, in order"""
     env = Env(hid, build, timeout_ms); j, ex, L = env.j, env.ex, env.L
     env.set_cell('g:@sercomm', L.rxstate, 4, C(ST['WAIT_START']))
     for d in (4, 5): env.register(d)
     def feed(v): env.call('@sercomm_drv_rx_char', [v if isinstance(v, V) else C(v)])
-    for k in range(nn):
-        v = j.var(ex, 'noise%d' % k, 0, 255); ex.assumes.append(v.e != FLAG); feed(v)
+    def noise():
+        for k in range(nn):
+            v = j.var(ex, 'noise%d' % k, 0, 255); ex.assumes.append(v.e != FLAG); feed(v)
     def plain(name):
         v = j.var(ex, name, 0, 255); ex.assumes.append(z3.And(v.e != FLAG, v.e != ESC)); return v
     a1 = plain('f1.payload'); a2 = plain('f2.payload0'); a3 = plain('f2.payload1')
+    if where == 'before': noise()
     for v in (FLAG, 4, 3, a1, FLAG): feed(v)
+    if where == 'between': noise()
     for v in (FLAG, 5, 3, a2, a3, FLAG): feed(v)
     j.witness(ex, [])
     j.memory_obligations(ex, [])
@@ -388,7 +395,7 @@ def c_osmocon_write(hid, timeout_ms=60000):
     return j.stats
 
 
-def c_frames(hid, msgs, pattern, timeout_ms=60000):
+def c_frames(hid, msgs, pattern, pull_before_last=None, timeout_ms=60000):
     """(b) whole frames: sendmsg for each message, pull everything, feed the receiver, compare deliveries.
     `pattern` fixes for every payload octet whether it is one of the three octets that need escaping ('s': 0x7E, 0x7D, 0x00)
     or any of the 253 others ('p'); all patterns are enumerated by the job list, the values stay symbolic"""
@@ -396,8 +403,12 @@ def c_frames(hid, msgs, pattern, timeout_ms=60000):
     env.call('@sercomm_init', [])
     # sercomm_init registered sercomm_sendmsg as ECHO handler; our recording handler replaces every handler we use
     for d in set(m[0] for m in msgs): env.set_cell('g:@sercomm', L.rxh + 8 * d, 8, FnPtr('@rx_handler'))
-    sent = []; npat = 0
+    sent = []; npat = 0; stream = []
     for k, (dlci, n) in enumerate(msgs):
+        if pull_before_last is not None and k == len(msgs) - 1:
+            # the transmitter is already draining (pull_before_last octets taken) when the last message is queued
+            for _ in range(pull_before_last):
+                rc, ch = env.pull(); stream.append((rc, ch))
         m = env.call('@sercomm_alloc_msgb', [C(16)]).ret
         payload = [j.var(ex, 'm%d.payload[%d]' % (k, i), 0, 255) for i in range(n)]
         for v in payload:
@@ -409,7 +420,6 @@ def c_frames(hid, msgs, pattern, timeout_ms=60000):
         env.call('@sercomm_sendmsg', [C(dlci), m])
         sent.append((dlci, payload))
     maxpull = sum(2 + 2 * (2 + len(p)) for d, p in sent) + 2
-    stream = []
     for k in range(maxpull):
         rc, ch = env.pull()
         stream.append((rc, ch))
@@ -429,8 +439,11 @@ def c_frames(hid, msgs, pattern, timeout_ms=60000):
             else: env.mem = out.mem
     j.witness(ex, [])
     j.memory_obligations(ex, [])
-    # expected delivery order: lower DLCI first, FIFO within a DLCI
+    # expected delivery order: lower DLCI first, FIFO within a DLCI; a frame whose transmission has begun is finished first
     order = sorted(range(len(sent)), key=lambda k: (sent[k][0], k))
+    if pull_before_last:
+        first = sorted(range(len(sent) - 1), key=lambda k: (sent[k][0], k))[0]
+        order = [first] + sorted([k for k in range(len(sent)) if k != first], key=lambda k: (sent[k][0], k))
     dl = [(g if g is not True else z3.BoolVal(True), d, sn) for g, d, sn in env.delivered if g is not False]
     cnt = z3.Sum([z3.If(g, 1, 0) for g, d, sn in dl]) if dl else z3.IntVal(0)
     j.must_hold(ex, 'delivered-count==sent-count', [], cnt == len(sent), sent=len(sent))
@@ -470,6 +483,7 @@ int main(int argc, char **argv) {
     else if (!strcmp(argv[k], "send")) { int d = atoi(argv[k+1]), n = atoi(argv[k+2]); struct msgb *m = sercomm_alloc_msgb(16); for (int i = 0; i < n; i++) *msgb_put(m, 1) = atoi(argv[k+3+i]); sercomm_sendmsg(d, m); k += 3 + n; }
     else if (!strcmp(argv[k], "loop")) { uint8_t ch; while (sercomm_drv_pull(&ch)) { printf("w%%u\n", ch); sercomm_drv_rx_char(ch); } k += 1; }
     else if (!strcmp(argv[k], "rx")) { sercomm_drv_rx_char(atoi(argv[k+1])); k += 2; }
+    else if (!strcmp(argv[k], "pull")) { int n = atoi(argv[k+1]); uint8_t ch; for (int i = 0; i < n; i++) if (sercomm_drv_pull(&ch)) { printf("w%%u\n", ch); sercomm_drv_rx_char(ch); } k += 2; }
     else k++;
   }
   return 0;
@@ -488,13 +502,19 @@ def replay(body):
         sc = []
         for d in set(m[0] for m in sh['msgs']): sc += ['reg', d]
         exp = []
+        pb = sh.get('pull_before_last')
         for k, (d, n) in enumerate(sh['msgs']):
             pl = [i.get('m%d.payload[%d]' % (k, x), 0) for x in range(n)]
+            if pb is not None and k == len(sh['msgs']) - 1: sc += ['pull', pb]
             sc += ['send', d, n] + pl; exp.append((d, pl))
         rc, out = native(sc + ['loop'])
         if rc != 0: return 1, 'REPRODUCED: native run failed (rc=%s): %s' % (rc, out[-600:])
         got = [(int(a), [int(x) for x in c.split()]) for a, b, c in re.findall(r'RX (\d+) (\d+)((?: \d+)*)', out)]
-        want = [exp[k] for k in sorted(range(len(exp)), key=lambda k: (exp[k][0], k))]
+        order = sorted(range(len(exp)), key=lambda k: (exp[k][0], k))
+        if pb:
+            first = sorted(range(len(exp) - 1), key=lambda k: (exp[k][0], k))[0]
+            order = [first] + sorted([k for k in range(len(exp)) if k != first], key=lambda k: (exp[k][0], k))
+        want = [exp[k] for k in order]
         wire = re.findall(r'w(\d+)', out)
         return (1, 'REPRODUCED on native build: sent %s, delivered %s (wire: %s)' % (want, got, ' '.join(wire))) if got != want else (0, 'native delivers %s as sent' % got)
     if fn == 'c_octet':
@@ -534,12 +554,28 @@ def replay(body):
         w = min(n, 256)
         ok = pulled == written == w and data == st[:w] and (not dis or pulled == n) and (n >= 256 or dis)
         return (0, 'native agrees') if ok else (1, 'REPRODUCED on native build: %d octets pending: pulled %d, wrote %d (%s), poll disabled %d' % (n, pulled, written, 'in order' if data == st[:written] else 'content differs', dis))
+    if fn == 'c_resync':
+        if sh['build'] != 'host': return 0, 'firmware-size variant has no native build (inline ARM assembly); see the host-size twin'
+        size = 2048
+        sc = ['reg', 4, 'reg', 5, 'rx', FLAG, 'rx', 5, 'rx', 3]
+        for k in range(size): sc += ['rx', 65]
+        for k in range(3): sc += ['rx', i.get('over%d' % k, 1)]
+        a1, a2, a3 = i.get('f1.payload', 1), i.get('f2.payload0', 1), i.get('f2.payload1', 1)
+        for v in (FLAG, FLAG, 4, 3, a1, FLAG, FLAG, 5, 3, a2, a3, FLAG): sc += ['rx', v]
+        rc, out = native(sc)
+        if rc != 0: return 1, 'REPRODUCED on native build (ASan/UBSan): ' + out[-500:]
+        got = [(int(a), [int(x) for x in c.split()]) for a, b, c in re.findall(r'RX (\d+) (\d+)((?: \d+)*)', out) if int(b) < size]
+        return (0, 'native resynchronises: %s' % got) if got and got[-1] == (5, [a2, a3]) and sum(1 for g in got if g == (5, [a2, a3])) == 1 else (1, 'REPRODUCED on native build: after an over-long frame the second following frame is not delivered exactly once: %s' % got)
     if fn == 'c_noise':
         if sh['build'] != 'host': return 0, 'firmware-size variant has no native build (inline ARM assembly); see the host-size twin'
         a1, a2, a3 = i.get('f1.payload', 1), i.get('f2.payload0', 1), i.get('f2.payload1', 1)
         sc = ['reg', 4, 'reg', 5]
-        for k in range(sh['nn']): sc += ['rx', i.get('noise%d' % k, 0)]
-        for v in (FLAG, 4, 3, a1, FLAG, FLAG, 5, 3, a2, a3, FLAG): sc += ['rx', v]
+        nz = []
+        for k in range(sh['nn']): nz += ['rx', i.get('noise%d' % k, 0)]
+        f1 = []; f2 = []
+        for v in (FLAG, 4, 3, a1, FLAG): f1 += ['rx', v]
+        for v in (FLAG, 5, 3, a2, a3, FLAG): f2 += ['rx', v]
+        sc += (nz + f1 + f2) if sh.get('where', 'before') == 'before' else (f1 + nz + f2)
         rc, out = native(sc)
         if rc != 0: return 1, 'REPRODUCED on native build (ASan/UBSan): %s' % out[-500:]
         got = [(int(a), [int(x) for x in c.split()]) for a, b, c in re.findall(r'RX (\d+) (\d+)((?: \d+)*)', out)]
